@@ -318,9 +318,19 @@ func runBloom(c *ctx, r *vlib.RNG) []string {
 
 // ---------------------------------------------------------------- Contains on arbitrary filter bytes
 
+func checkHas(c *ctx, flt, key []byte, rep interface{}) bool {
+	var ans bool
+	f := filter.NewBloomFilter(10)
+	guard(c, "bloom Contains on arbitrary filter bytes", rep, limitShort, func() { ans = f.Contains(flt, key) })
+	// (P) a filter whose stored k is in the reserved range must be treated as a match
+	if len(flt) >= 2 && flt[len(flt)-1] > 30 && !ans {
+		c.res.Violate(fmt.Sprintf("filter with reserved k=%d answered false", flt[len(flt)-1]), rep)
+	}
+	return ans
+}
+
 func runHas(c *ctx, r *vlib.RNG) []string {
 	n := c.budget().hasN
-	f := filter.NewBloomFilter(10)
 	var cases []string
 	for i := 0; i < n; i++ {
 		var flt []byte
@@ -340,13 +350,8 @@ func runHas(c *ctx, r *vlib.RNG) []string {
 			flt[len(flt)-1] = []byte{0, 1, 2, 6, 29, 30, 31, 32, 128, 255}[r.Intn(10)]
 		}
 		key := genKey(r, nil)
-		var ans bool
 		rep := map[string]interface{}{"kind": "has", "filter": hx(flt), "key": hx(key)}
-		guard(c, "bloom Contains on arbitrary filter bytes", rep, limitShort, func() { ans = f.Contains(flt, key) })
-		// (P) a filter whose stored k is in the reserved range must be treated as a match
-		if len(flt) >= 2 && flt[len(flt)-1] > 30 && !ans {
-			c.res.Violate(fmt.Sprintf("filter with reserved k=%d answered false", flt[len(flt)-1]), rep)
-		}
+		ans := checkHas(c, flt, key, rep)
 		c.res.Count(fmt.Sprintf("has_answer_%v", ans), 1)
 		c.res.Eval("has/"+hx(flt)+"/"+hx(key), len(flt) >= 2)
 		if len(cases) < 400 && c.a.Extra != "search" {
